@@ -18,13 +18,18 @@ RULE = ("histories of 1-8 (quick) / 1-20 (thorough) public transformation calls 
         "affine map, in-place result is the receiver and equals what the copying form returns (lock-step on a deep copy), copying "
         "form leaves the receiver untouched, rejected steps rejected in both forms without modification, and at the end every object "
         "ever created is still in the state it was last legitimately left in (catches aliasing between copies). Model history is "
-        "compared step by step (receiver and returned object). non-trivial = at least 2 accepted steps incl. one non-translation")
-TRUSTED = ["harness/c13.py, harness/tcommon.py + driver JSON glue",
-           "cos/sin(k*pi/2) of the code are within 2^-50 of the exact integers used by the model (compared with 2^-40 relative bound)"]
+        "compared step by step (receiver and returned object). Store sessions (round 3): caller-made Region objects, meshes built from them (the "
+        "same candidates for two meshes / under two names / a mesh's own region or subregions as candidates), in-place and copying steps on meshes "
+        "and on the caller's Region objects, re-assigned subregions - after EVERY statement the store model must name the same objects as `is` does and "
+        "give every nameable Region object the same corners; oracle: a mesh holds copies, no Region object is held twice, an in-place step changes "
+        "nothing outside its mesh, a rejected statement changes nothing. non-trivial = at least 2 accepted steps incl. one non-translation")
+TRUSTED = ["harness/c13.py, harness/tcommon.py + driver JSON glue (incl. the resolution of object names {res / mesh part / mesh sub} to ids in the store_session op)",
+           "the matrix of k quarter turns is the exact integer matrix in model and code (repo fixes 1656fb93, d6b0640f); corners compared with a 2^-40 relative bound for the rounding of ref + M(p - ref)"]
 ASSUMPTIONS = ["dyadic arguments: translate/scale steps are exact in binary64; rotation steps carry float cos/sin error"]
-UNPROVED = ["operand/receiver immutability and 'returns self' are runtime facts: stated as model requirements, observed on the real code by snapshots; 'a rejected step leaves the object unmodified' is proved as: the model step returns an error carrying no state, exactly for the malformed-argument classes (rejected_iff_malformed_*), and a history skips it (rejected_step_skipped) - partial mutation before an exception is only observable on the real code",
-            "mesh/field-level complete equivalence of the two forms (step_forms_mesh, inplace_eq_copy_mesh_complete, inplace_eq_copy_field, history_forms_agree_*) now covers periodic bc, under BcWf: bc lower-case and checked and - for periodic bc - single-character dimension names lower-case; for upper-case single-character dimension names the letter swap does not commute with the setter's str.lower and the forms can differ (inplace_eq_copy_mesh still describes them up to the bc check) - outside the generators",
-            "the mesh/field-level form theorems assume SubInv in exact arithmetic: in binary64 the copying form re-validates subregions with an absolute 1e-12 tolerance and can reject where the in-place form succeeds (known finding D18) - observed by the harness, outside the rational model"]
+UNPROVED = ["receiver immutability, 'returns self' and 'a rejected step leaves the object unmodified' are now PROVED for meshes in the store model of Region/Mesh OBJECTS (Model/C13Store.lean, tied to the code by the session stream: identity via `is`, values via corners, after every statement): inplace_mesh_step_in_store (evaluates to the mesh itself, value = stepM's receiver), rejected_inplace_mesh_step_changes_nothing (although the store model moves the Region objects one after the other), inplace_step_frame, copy_mesh_step_in_store, constructor_and_setter_in_store, region_step_frame, inplace_history_in_store (= runM). Still assumed, observed by snapshots on the real code: atomicity of ONE in-place Region method (all checks before the first assignment - `updReg`), and everything about Field objects (the store model has no fields: array / validity / mapping ownership is observed by the independence probe)",
+            "ownership: since repo fix 12c808de (finding D134, found by this store model: Mesh(region=R) kept R by reference, so two meshes built on one Region object shared it) the constructor copies the region object as the setter copies the subregions; the model follows (mkMeshS), exclusive ownership holds after EVERY session without any discipline of the caller (store_invariant_after_any_session, exclusive_ownership_after_any_session, region_not_shared_witness) and the session oracle now judges two meshes on one Region object. What remains the caller's business: a mesh's OWN Region objects can be moved through handles obtained from the mesh (mesh.region, mesh.subregions[name]) - that changes that object and that mesh only (region_step_frame) but can break that mesh's SubInv; such sessions are generated ('undisciplined'), judged for ownership and frame, not for SubInv",
+            "mesh/field-level complete equivalence of the two forms (step_forms_mesh, inplace_eq_copy_mesh_complete, inplace_eq_copy_field, history_forms_agree_*) covers periodic bc under BcWf: bc lower-case and checked and - for periodic bc - single-character dimension names lower-case; for upper-case single-character dimension names the letter swap does not commute with the setter's str.lower - outside the generators",
+            "the mesh/field-level form theorems assume SubInv in exact arithmetic; WITHOUT it the relation of the two forms is now exact too: the copying form is the constructor applied to the in-place result and is accepted iff that result passes the bc check and the setter's three tolerant tests (DFV.C14.copy_form_is_constructor_of_inplace, copy_accepted_iff_inplace_passes) - so in binary64 the copying form rejects where the in-place form succeeds exactly when rounding pushes a subregion corner off the lattice by more than the ABSOLUTE 1e-12 (D18, DFV.C14.d18_aligned_rejected_iff) - observed by the harness, the rounding itself is outside the rational model"]
 BUDGET = {"quick": 90, "thorough": 900}
 
 
@@ -53,6 +58,15 @@ def cases(rng, tier):
         # large against the smallest edge, small against the coordinates themselves)
         spec, ops = tc.rescale_case(spec, ops, -30 if k % 4 < 2 else 1e-9)
         yield dict(obj=spec, ops=ops, stream="nm-far")
+    # store sessions (round 3): who holds which Region object.  Caller-made Region objects, meshes built from them (the
+    # same candidates for two meshes / under two names / the mesh's own region as a candidate), in-place and copying
+    # steps on meshes and on the caller's Region objects, re-assigned subregions; compared with the store model after
+    # every statement (identity via `is`, values via corners).  Two meshes on ONE Region object are part of every stream
+    # (repo fix 12c808de: each gets a region object of its own; the other mesh and the caller's region must not move).
+    # One in eight sessions also moves a mesh's own Region objects directly through mesh.region / mesh.subregions[..]:
+    # ownership and frame are judged there as well, only SubInv of the mesh the caller moved by hand is not.
+    for k in range(120 if tier == "quick" else 900):
+        yield dict(session=tc.gen_session(rng, undisciplined=(k % 8 == 7)), stream="session")
     # float-extreme stream (oracle only: the rational model does not absorb): far-away vectors / reference points
     # and tiny factors, where a step can leave a zero edge length in binary64
     for k in range(40 if tier == "quick" else 400):
@@ -132,7 +146,25 @@ def same_state(a, b, rel=2**-40):
     return reg(a, b)
 
 
+def run_session_case(case):
+    del tc.ARG_CHANGED[:]
+    sess = case["session"]
+    obs = {"oracle": [], "tags": ["kind:session", "undisciplined" if sess.get("undisciplined") else "disciplined",
+                                  f"len:{min(len(sess['stmts']), 12)}"]}
+    r = tc.run_session(sess, obs["oracle"].append)
+    obs.update(r)
+    kinds = [s["t"] for s in r["sent"]]
+    obs["tags"] += sorted({"stmt:" + k for k in kinds})
+    obs["nontrivial"] = sum(s is not None and s["kind"] == "mesh" for s in r["steps"]) >= 2
+    for text in tc.ARG_CHANGED:
+        obs["oracle"].append(text)
+    del tc.ARG_CHANGED[:]
+    return obs
+
+
 def run_impl(case):
+    if "session" in case:
+        return run_session_case(case)
     del tc.ARG_CHANGED[:]
     obs = {"oracle": [], "tags": [f"kind:{case['obj']['kind']}", f"len:{len(case['ops'])}"] + (["extreme"] if case.get("extreme") else [])}
     fail = obs["oracle"].append
@@ -230,6 +262,8 @@ def run_impl(case):
 
 
 def model_requests(case, obs):
+    if "session" in case:
+        return [{"op": "store_session", "stmts": obs["sent"]}] if "sent" in obs else []
     kind = case["obj"]["kind"]
     if "start" not in obs or case.get("extreme"):
         return []
@@ -239,6 +273,9 @@ def model_requests(case, obs):
 def compare(case, obs, rs):
     dis = []
     if not rs:
+        return dis
+    if "session" in case:
+        tc.cmp_session(case["session"], obs, rs[0], dis)
         return dis
     res = rs[0]
     global _MAG
@@ -338,6 +375,8 @@ def nontrivial(case, obs):
 def known(case, text):
     # D18: the copying form of a mesh step re-runs the subregion setter, whose absolute 1e-12 alignment tolerance
     # rejects cell-aligned subregions once coordinates carry rotation rounding at larger magnitudes
+    if "session" in case:
+        return None
     if case["obj"].get("subs") and ("is not aligned with the mesh" in text or "cannot be divided into" in text
                                     or "is not in the mesh region" in text):
         # the ABSOLUTE 1e-12 can only matter when rounding errors of the coordinates (a few ulp per step at the
@@ -362,6 +401,8 @@ def _case_mag(case):
 
 
 def search(case, rng):
+    if "session" in case:
+        return
     spec = case["obj"]
     for _ in range(100):
         yield dict(obj=spec, ops=[tc.gen_op(rng, spec, far=False, rot_ref_small=True) for _ in range(rng.randint(1, 3))])
@@ -370,6 +411,8 @@ def search(case, rng):
 def shrink(failure):
     """drop steps from the history while the oracle still fails"""
     case = failure["case"]
+    if "session" in case:
+        return failure
     ops = list(case["ops"])
     changed = True
     while changed and len(ops) > 1:
